@@ -12,6 +12,7 @@ CONSTANTS
   MaxCuts = 1
   ClassSet = {"bnd", "field", "name", "id", "idfull", "data", "datafull"}
   AnswerSet = {"ok"}
+  TailSet = {"good"}
   FixScanner = FALSE
   FixCursor = TRUE
   Fix5xx = TRUE
